@@ -4,3 +4,4 @@ import PyTreesModel.Names
 import PyTreesModel.Blackboard
 import PyTreesModel.Edit
 import PyTreesModel.Idioms
+import PyTreesModel.Manager
